@@ -5,7 +5,7 @@
 set -u
 ID=$1; P=$2; TIER=${3:-quick}; SECS=${4:-}
 WT=/tmp/wt/eval-$$-$RANDOM
-git -C /repo worktree add -q --detach $WT HEAD || { echo "worktree failed"; exit 2; }
+git -C /repo worktree add -q --detach $WT ${BASE:-HEAD} || { echo "worktree failed"; exit 2; }
 trap 'git -C /repo worktree remove --force $WT >/dev/null 2>&1' EXIT
 git -C $WT apply $P || { echo "patch does not apply"; exit 2; }
 cd /verif
